@@ -12,6 +12,7 @@ import Rrtk.Drv.Mp
 import Rrtk.Drv.Se
 import Rrtk.Drv.Dv
 import Rrtk.Drv.Rf
+import Rrtk.Drv.Sf
 open Rrtk Rrtk.Drv
 
 def runLine (chk : Bool) (nostd : Bool) (line : String) : String :=
@@ -31,6 +32,7 @@ def runLine (chk : Bool) (nostd : Bool) (line : String) : String :=
   | "dv" :: rest => runM (runDv chk rest)
   | "wr" :: rest => runM (runWr chk rest)
   | "rf" :: rest => runM (runRf chk rest)
+  | "sf" :: rest => runM (runSf rest)
   | _ => "NOIMPL"
 
 partial def loop (chk : Bool) (nostd : Bool) (hin : IO.FS.Stream) (hout : IO.FS.Stream) : IO Unit := do
